@@ -409,6 +409,8 @@ def stdin_input(cls, lines=None):
         return "local   x = 1\r\ndo\r\n  f()\r\nend\r\n"
     if cls == "nonl":
         return "local   x = 1"
+    if cls == "longtail":
+        return "local   x = 1\nlocal s = \"" + "a" * 5000 + "\""
     if cls == "large":
         return "".join("local   v%d = { %d,%d }\n" % (i, i, i + 1) for i in range(lines or LARGE_LINES[0]))
     raise ValueError(cls)
@@ -419,7 +421,7 @@ def src_stdin(tier, seed):
     raw, st = tlc_generate("MC_Stdin", "MC_Stdin_%s.cfg" % tier, "g_stdin_" + tier)
     raw.sort(key=lambda c: json.dumps(c, sort_keys=True))
     reqs, scenarios = [], []
-    for cls in ("unformatted", "formatted", "empty", "crlf", "nonl", "large"):
+    for cls in ("unformatted", "formatted", "empty", "crlf", "nonl", "large", "longtail"):
         reqs.append(("fmt:" + cls, stdin_input(cls).encode(), {}))
         reqs.append(("fmt_cfgdir:" + cls, stdin_input(cls).encode(), {"indent_type": "Spaces", "indent_width": 3}))
         reqs.append(("fmt_ecdir:" + cls, stdin_input(cls).encode(), {"indent_type": "Spaces", "indent_width": 5}))
